@@ -27,8 +27,8 @@ fn rel(from_dir: &str, to_dir: &str, file: &str) -> String {
 
 #[derive(Clone, Copy, Debug, PartialEq)]
 pub enum Deco { None, LeadingBlanks, TrailingBlanksTab, InnerBlanks, NoFinalNewline, Crlf, InBacktickFence, InTildeFence, Fence4ClosedBy3, Fence4ClosedBy5, AfterUnclosedFence,
-  FenceIndent3, FenceIndent4, TextBefore, TextAfter, NotMecExpr, MissingTarget, UpperCaseExt, TwiceSameLine, IncludeLineIndent4, FenceWithInfo, TildeInsideBacktick }
-pub const DECOS: [Deco; 22] = [Deco::None, Deco::LeadingBlanks, Deco::TrailingBlanksTab, Deco::InnerBlanks, Deco::NoFinalNewline, Deco::Crlf, Deco::InBacktickFence, Deco::InTildeFence, Deco::Fence4ClosedBy3, Deco::Fence4ClosedBy5,
+  FenceIndent3, FenceIndent4, TextBefore, TextAfter, NotMecExpr, MissingTarget, UpperCaseExt, TwiceSameLine, IncludeLineIndent4, FenceWithInfo, TildeInsideBacktick, FenceHoldingOpenerLikeLine, TildeFenceHoldingRunWithText }
+pub const DECOS: [Deco; 24] = [Deco::FenceHoldingOpenerLikeLine, Deco::TildeFenceHoldingRunWithText, Deco::None, Deco::LeadingBlanks, Deco::TrailingBlanksTab, Deco::InnerBlanks, Deco::NoFinalNewline, Deco::Crlf, Deco::InBacktickFence, Deco::InTildeFence, Deco::Fence4ClosedBy3, Deco::Fence4ClosedBy5,
   Deco::AfterUnclosedFence, Deco::FenceIndent3, Deco::FenceIndent4, Deco::TextBefore, Deco::TextAfter, Deco::NotMecExpr, Deco::MissingTarget, Deco::UpperCaseExt, Deco::TwiceSameLine, Deco::IncludeLineIndent4, Deco::FenceWithInfo, Deco::TildeInsideBacktick];
 
 /// how the decorated include line is written in the file, and whether the reference expands it
@@ -57,6 +57,9 @@ pub fn decorate(d: Deco, p: &str) -> (String, Vec<Piece>, Option<&'static str>) 
     Deco::UpperCaseExt => { let t = format!("{{{}}}\n", p.replace(".mec", ".MEC")); (t.clone(), vec![Piece::Lit(t)], None) }
     Deco::TwiceSameLine => { let t = format!("{{{}}} {{{}}}\n", p, p); (t.clone(), vec![], Some("unjudged")) }
     Deco::IncludeLineIndent4 => (format!("    {{{}}}\n", p), vec![Piece::Include, Piece::Lit("\n".into())], None),
+    // inside an open fence a run of fence characters that is followed by text is content, not a closer
+    Deco::FenceHoldingOpenerLikeLine => { let t = format!("```\n```mech\n{{{}}}\n```\n", p); (t.clone(), vec![Piece::Lit(t)], None) }
+    Deco::TildeFenceHoldingRunWithText => { let t = format!("~~~~~\n~~~~~ example ~~~~~\n{{{}}}\n~~~~~\n", p); (t.clone(), vec![Piece::Lit(t)], None) }
     Deco::FenceWithInfo => { let t = format!("```mech:disabled\n{{{}}}\n```\n", p); (t.clone(), vec![Piece::Lit(t)], None) }
     Deco::TildeInsideBacktick => { let t = format!("```\n~~~\n{{{}}}\n```\n", p); (t.clone(), vec![Piece::Lit(t)], None) }
   }
@@ -111,9 +114,12 @@ fn expand(i: usize, k: usize, edges: u32, deco_on_root: &Option<(usize, Vec<Piec
 
 impl UnitRunner for C20 {
   fn unit(&mut self, _payload: &str, unit: u64, out: &mut WorkerOut) {
-    let k = self.k();
+    // payload "names4": four files, two in . and two in d1, numbered per directory - the same spelling {f1.mec} then means ./f1.mec
+    // in one file and d1/f1.mec in another (every edge subset; only this layout and naming)
+    let names4 = _payload == "names4";
+    let k = if names4 { 4 } else { self.k() };
     let edges = unit as u32;
-    let layouts: Vec<Vec<usize>> = {
+    let layouts: Vec<Vec<usize>> = if names4 { vec![vec![0, 0, 0, 0], vec![0, 0, 1, 1]] } else {
       // directory of each file: f0 in "." always; the others range over the three directories (quick: 5 layouts)
       let mut v = vec![];
       let n = 3usize.pow(k as u32 - 1);
@@ -126,8 +132,12 @@ impl UnitRunner for C20 {
     for (li, layout) in layouts.iter().enumerate() {
       let decos: Vec<Deco> = if root_has_include && (li == 0 || self.tier == Tier::Thorough && li % 4 == 1) { DECOS.to_vec() } else { vec![Deco::None] };
       for d in decos {
-       for style in 0..3usize {
-        if style > 0 && !(d == Deco::None && li == 0) { continue; }
+       for style in 0..4usize {
+        if (style == 1 || style == 2) && !(d == Deco::None && li == 0) { continue; }
+        // style 3: file names numbered per directory, so files in different directories share a name (f0.mec in ., in d1, in d1/d2)
+        if style == 3 && !(d == Deco::None && li > 0) { continue; }
+        if names4 && !(style == 3 && li == 1) { continue; }
+        let fname = |i: usize| -> String { if style == 3 { format!("f{}.mec", (0..i).filter(|x| layout[*x] == layout[i]).count()) } else { format!("f{}.mec", i) } };
         out.evaluations += 1;
         // ---- write the files
         let dir = self.scratch.join(format!("g{}l{}", edges, li));
@@ -141,7 +151,7 @@ impl UnitRunner for C20 {
           let mut ended = false;
           for j in 0..k {
             if edges >> (i * k + j) & 1 == 0 { continue; }
-            let p = rel(DIRS[layout[i]], DIRS[layout[j]], &format!("f{}.mec", j));
+            let p = rel(DIRS[layout[i]], DIRS[layout[j]], &fname(j));
             if i == 0 && first && d != Deco::None {
               let (t, pieces, flag) = decorate(d, &p);
               s.push_str(&t);
@@ -159,7 +169,7 @@ impl UnitRunner for C20 {
           if style == 2 && i != 0 && (0..k).all(|j| edges >> (i * k + j) & 1 == 0) { s = String::new(); }
           texts.push(s.clone());
           let fdir = dir.join(DIRS[layout[i]]);
-          if std::fs::create_dir_all(&fdir).is_err() || std::fs::write(fdir.join(format!("f{}.mec", i)), &s).is_err() { ok = false; }
+          if std::fs::create_dir_all(&fdir).is_err() || std::fs::write(fdir.join(fname(i)), &s).is_err() { ok = false; }
         }
         if !ok { out.fail("C20|scratch-io|setup".into(), format!("{}", dir.display()), "cannot write scratch files".into()); continue; }
         if d == Deco::NoFinalNewline && deco_ref.is_none() { let _ = std::fs::remove_dir_all(&dir); continue; }
@@ -167,13 +177,13 @@ impl UnitRunner for C20 {
         let mut stack = vec![]; let mut oc = (false, false);
         let mut want_text = expand(0, k, edges, &(if d == Deco::None { None } else { deco_ref.take() }), &mut stack, &mut oc, style);
         // the verbatim copies inside an unclosed fence were recorded as {@j}: put the real paths back
-        for j in 0..k { want_text = want_text.replace(&format!("{{@{}}}", j), &format!("{{{}}}", rel(DIRS[layout[0]], DIRS[layout[j]], &format!("f{}.mec", j)))); }
+        for j in 0..k { want_text = want_text.replace(&format!("{{@{}}}", j), &format!("{{{}}}", rel(DIRS[layout[0]], DIRS[layout[j]], &fname(j)))); }
         let want = if d == Deco::TwiceSameLine { Want::Unjudged } else { match oc { (true, true) => Want::Either, (true, false) => Want::Cycle, (false, true) => Want::Missing, _ => Want::Text(want_text) } };
         // ---- subject
-        let root = dir.join("f0.mec");
+        let root = dir.join(DIRS[layout[0]]).join(fname(0));
         let r = catch_unwind(AssertUnwindSafe(|| mech::read_mech_source_file(&root)));
         let shape = graph_shape(k, edges);
-        let locus = format!("{}:{:?}{}", shape, d, ["", ":files-end-with-fence", ":empty-leaf-files"][style]);
+        let locus = format!("{}:{:?}{}", shape, d, ["", ":files-end-with-fence", ":empty-leaf-files", ":same-names-in-different-directories"][style]);
         let case = format!("files {:?} (f0 in ./, layout {:?})", texts, layout.iter().map(|l| DIRS[*l]).collect::<Vec<_>>());
         match r {
           Err(p) => out.fail(format!("C20|panic|{}", locus), case, panic_msg(p)),
@@ -225,7 +235,9 @@ impl Check for C20 {
       the files are written to a scratch directory and loaded with mech::read_mech_source_file; the reference is a depth-first textual substitution with the stack of files being expanded and its own CommonMark fence tracker; evaluations = loads; non-trivial = loads with a fixed verdict", k, k, k, n);
     rep.assumptions = vec!["which of two reachable failures (cycle, missing file) is reported is not judged; two brace groups on one line are not judged; symlinks and non-UTF-8 files are out of scope".into(), "a fence is a CommonMark fenced code block: 3+ backticks or tildes indented at most 3 blanks, closed by at least as many of the same character".into()];
     rep.cov("bounds", json!({"files": k, "graphs": n, "decorations": DECOS.len()}));
-    drive_ranges(cfg, rep, range_jobs("", n, tier.pick(4, 64)));
+    let mut jobs = range_jobs("", n, tier.pick(4, 64));
+    if tier == Tier::Quick { jobs.extend(range_jobs("names4", 1u64 << 16, 256)); }
+    drive_ranges(cfg, rep, jobs);
     let _ = std::fs::remove_dir_all(format!("{}/target/c20-scratch", crate::report::verif_dir()));
     let _ = std::fs::remove_dir_all("/dev/shm/mc-c20-scratch");
     if rep.out.nontrivial < 1000 { rep.vacuity.push("too few judged loads".into()); }
